@@ -1521,8 +1521,9 @@ func (n *RegexNode) reduceConcatenationWithAdjacentLoops() {
 					next++
 					continue
 				}
-			} else if (currentNode.T == NtOneloop || currentNode.T == NtOnelazy) && nextNode.T == NtMulti && currentNode.Ch == nextNode.Str[0] {
-				// Coalescing a loop with a subsequent string
+			} else if (currentNode.T == NtOneloop || currentNode.T == NtOnelazy) && nextNode.T == NtMulti && (currentNode.Options&RightToLeft) == 0 && currentNode.Ch == nextNode.Str[0] {
+				// Coalescing a loop with a subsequent string (left-to-right only: a right-to-left
+				// string is consumed from its last character, so its first character isn't adjacent to the loop)
 				// Determine how many of the multi's characters can be combined.
 				// We already checked for the first, so we know it's at least one.
 				matchingCharsInMulti := 1
